@@ -15,6 +15,7 @@ EXTRA_TARGETS = {
     'C15': ['XdocModel.Proofs.Compose2'],
     'C18': ['XdocModel.Proofs.C18Labels', 'XdocModel.Proofs.Compose', 'XdocModel.Proofs.NDigits'],
     'C16': ['XdocModel.Proofs.Switch'],
+    'C03': ['XdocModel.Proofs.ExcCorollaries'],
     'C06': ['XdocModel.Proofs.EllipsisCorollaries'],
     'C19': ['XdocModel.Proofs.Compose2', 'XdocModel.Proofs.DumpKept'],
 }
@@ -68,6 +69,9 @@ EXTRA_THEOREMS['C16'] = [('Xdoc.Switch.mode_never_changes_tests', 'full'), ('Xdo
 
 EXTRA_THEOREMS['C06'] = [('Xdoc.C06.bare_ellipsis_matches_everything', 'full'), ('Xdoc.C06.padded_ellipsis_matches_everything', 'full'),
                          ('Xdoc.C06.two_pieces_iff', 'full'), ('Xdoc.C06.two_pieces_length', 'full')]
+
+EXTRA_THEOREMS['C03'] = [('Xdoc.C03.non_traceback_want_never_expected', 'full'), ('Xdoc.C03.detail_off_exact', 'full'),
+                         ('Xdoc.C03.full_match_expected', 'full'), ('Xdoc.C03.empty_name_needs_full_match', 'full')]
 
 
 def _replay_K_C08_c(ctx, finding):
@@ -127,6 +131,8 @@ EXTRA_TEXT = {
             "of eight (phase, error) pairs; the other ten are impossible) with a kernel-checked witness docstring for each possible pair (`possibleFailures_all_occur`, each also run "
             "through the real parser), and fuel-freeness of every loop (`findStart_some_spec`, `intervalStarts_decreasing`, `hackComments_fuel_free`, `isBalanced_fuel_free`)."),
     'C15': (" ADDED (Proofs/Compose2.lean): `both_exit_nonzero_iff_failed_of_frames`, `exit_statuses_agree` with the escape hypothesis replaced by C09's frame hypothesis."),
+    'C03': (" ADDED (Proofs/ExcCorollaries.lean, fourth session): what IGNORE_EXCEPTION_DETAIL can and cannot do, for all exception lines and wants — "
+            "`non_traceback_want_never_expected`, `detail_off_exact`, `full_match_expected`, `empty_name_needs_full_match` (corollaries of `expected_exception_iff`)."),
     'C06': (" ADDED (Proofs/EllipsisCorollaries.lean, fourth session): direct consequences of `ellipsis_iff_spec` for ALL outputs — `bare_ellipsis_matches_everything`, "
             "`padded_ellipsis_matches_everything` (a want that is only `...`, with or without surrounding white space, accepts every output, the empty one included), "
             "`two_pieces_iff` (a want that splits into two pieces matches iff the output starts with the first and ends with the last without overlap), `two_pieces_length`."),
